@@ -10,7 +10,10 @@ Definition enc_seg (s : seg) : sexp :=
 Definition enc_kind (k : rkind) : sexp :=
   A (match k with KBeginFor => 0 | KEndFor => 1 | KBeginBlock => 2 | KEndBlock => 3 | KPlain => 4 end).
 Definition enc_incl (i : incl) : sexp :=
-  match i with IncTrue => L [A 0] | IncFalse => L [A 1] | IncRef x => L [A 2; enc_str x] end.
+  match i with
+  | IncTrue => L [A 0] | IncFalse => L [A 1] | IncRef x => L [A 2; enc_str x]
+  | IncCmp x pos w => L [A 3; enc_str x; enc_bool pos; enc_str w]
+  end.
 Definition enc_iter (i : iterspec) : sexp :=
   match i with ILit l => L [A 0; L (map enc_str l)] | IRef x => L [A 1; enc_str x] end.
 Definition enc_raw (r : raw) : sexp :=
